@@ -7,26 +7,44 @@ import Genshi.Lemmas.Parse
 namespace Genshi.Parse
 open Genshi
 
-def XmlCb.isDefault : XmlCb → Bool
-  | .default_ _ _ _ => true
-  | _ => false
-
 /-- the events a handler call enqueues (nothing when it raises) -/
 def evOf (c : XmlCb) : Stream :=
   match xmlStep () c with
   | .ok r => r.2
   | .error _ => []
 
-theorem xmlStep_nodefault (c : XmlCb) (h : c.isDefault = false) : xmlStep () c = .ok ((), evOf c) := by
-  cases c <;> simp_all [xmlStep, evOf, XmlCb.isDefault]
+/-- the handler call does not raise -/
+def cbOk (c : XmlCb) : Bool :=
+  match xmlStep () c with
+  | .ok _ => true
+  | .error _ => false
 
-theorem run_xml_nodefault : ∀ (cbs : List XmlCb), cbs.all (fun c => !c.isDefault) = true →
+theorem xmlStep_ok (c : XmlCb) (h : cbOk c = true) : xmlStep () c = .ok ((), evOf c) := by
+  unfold cbOk at h
+  unfold evOf
+  cases hs : xmlStep () c with
+  | error e => simp [hs] at h
+  | ok r => rfl
+
+theorem handleOther_ignorable (s : Str) (l c : Int) (h : (s.head? != some '&') = true) :
+    handleOther s l c = .ok [] := by
+  unfold handleOther
+  cases s with
+  | nil => rfl
+  | cons ch cs =>
+    by_cases hc : ch = '&'
+    · subst hc; simp at h
+    · split
+      · rename_i heq; simp only [List.cons.injEq] at heq; exact absurd heq.1 hc
+      · rfl
+
+theorem run_xml_ok : ∀ (cbs : List XmlCb), cbs.all cbOk = true →
     run xmlLayer () (cbs.map Item.cb) = .ok ((), cbs.flatMap evOf)
   | [], _ => rfl
   | c :: cs, h => by
-      simp only [List.all_cons, Bool.and_eq_true, Bool.not_eq_true'] at h
-      simp only [List.map_cons, run, xmlLayer, xmlStep_nodefault c h.1]
-      have := run_xml_nodefault cs (by simpa using h.2)
+      simp only [List.all_cons, Bool.and_eq_true] at h
+      simp only [List.map_cons, run, xmlLayer, xmlStep_ok c h.1]
+      have := run_xml_ok cs h.2
       simp only [xmlLayer] at this
       rw [this]
       simp
@@ -53,23 +71,31 @@ theorem all_append_map {α : Type} (p : XmlCb → Bool) (f : α → XmlCb) (hf :
     (l.map f).all p = true := by
   simp [List.all_map, hf]
 
+theorem cbOk_default_ignorable (s : Str) (l c : Int) (h : (s.head? != some '&') = true) :
+    cbOk (.default_ s l c) = true := by
+  simp [cbOk, xmlStep, handleOther_ignorable s l c h]
+
 mutual
-  theorem callbacks_nodefault : ∀ (t : XNode), t.callbacks.all (fun c => !c.isDefault) = true
-    | .elem name attrs decls kids => by
-        have := callbacksList_nodefault kids
+  theorem callbacks_allOk : ∀ (t : XNode), t.wf = true → t.callbacks.all cbOk = true
+    | .elem name attrs decls kids, h => by
+        have := callbacksList_allOk kids (by simpa [XNode.wf] using h)
         simp only [XNode.callbacks, List.all_append, List.all_cons, List.all_map, Bool.and_eq_true]
-        refine ⟨by simp [XmlCb.isDefault], by simp [XmlCb.isDefault], this, by simp [XmlCb.isDefault], by simp [XmlCb.isDefault]⟩
-    | .chars ps => by simp [XNode.callbacks, List.all_map, XmlCb.isDefault]
-    | .cdata ps => by simp [XNode.callbacks, List.all_map, XmlCb.isDefault]
-    | .comment s => by simp [XNode.callbacks, XmlCb.isDefault]
-    | .pi t d => by simp [XNode.callbacks, XmlCb.isDefault]
-    | .decl v e s => by simp [XNode.callbacks, XmlCb.isDefault]
-    | .doctype n sy pb h => by simp [XNode.callbacks, XmlCb.isDefault]
-  theorem callbacksList_nodefault : ∀ (ts : List XNode), (callbacksList ts).all (fun c => !c.isDefault) = true
-    | [] => rfl
-    | t :: ts => by
+        refine ⟨by simp [cbOk, xmlStep], by simp [cbOk, xmlStep], this, by simp [cbOk, xmlStep], by simp [cbOk, xmlStep]⟩
+    | .chars ps, _ => by simp [XNode.callbacks, List.all_map, cbOk, xmlStep]
+    | .cdata ps, _ => by simp [XNode.callbacks, List.all_map, cbOk, xmlStep]
+    | .comment s, _ => by simp [XNode.callbacks, cbOk, xmlStep]
+    | .pi t d, _ => by simp [XNode.callbacks, cbOk, xmlStep]
+    | .decl v e s, _ => by simp [XNode.callbacks, cbOk, xmlStep]
+    | .doctype n sy pb h, _ => by simp [XNode.callbacks, cbOk, xmlStep]
+    | .ignorable s l c, h => by
+        simp only [XNode.wf] at h
+        simp [XNode.callbacks, cbOk_default_ignorable s l c h]
+  theorem callbacksList_allOk : ∀ (ts : List XNode), wfList ts = true → (callbacksList ts).all cbOk = true
+    | [], _ => rfl
+    | t :: ts, h => by
+        simp only [wfList, Bool.and_eq_true] at h
         simp only [callbacksList, List.all_append, Bool.and_eq_true]
-        exact ⟨callbacks_nodefault t, callbacksList_nodefault ts⟩
+        exact ⟨callbacks_allOk t h.1, callbacksList_allOk ts h.2⟩
 end
 
 theorem flatMap_evOf_map {α : Type} (f : α → XmlCb) (g : α → Event) (h : ∀ x, evOf (f x) = [g x]) :
@@ -79,9 +105,9 @@ theorem flatMap_evOf_map {α : Type} (f : α → XmlCb) (g : α → Event) (h : 
 
 mutual
   /-- the events of the handler calls for a node are the flattening of the node -/
-  theorem callbacks_events : ∀ (t : XNode), t.callbacks.flatMap evOf = flattenList t.toNodes
-    | .elem name attrs decls kids => by
-        have ih := callbacksList_events kids
+  theorem callbacks_events : ∀ (t : XNode), t.wf = true → t.callbacks.flatMap evOf = flattenList t.toNodes
+    | .elem name attrs decls kids, h => by
+        have ih := callbacksList_events kids (by simpa [XNode.wf] using h)
         simp only [XNode.callbacks, XNode.toNodes, List.flatMap_append, List.flatMap_cons, flattenList_append,
           flattenList, Node.flatten]
         rw [flatMap_evOf_map (fun d : Option Str × Option Str => XmlCb.startNs d.1 d.2)
@@ -92,25 +118,30 @@ mutual
             flattenList_leaves (fun d : Option Str × Option Str => Event.endNs (d.1.getD [])),
             ih]
         simp [evOf, xmlStep]
-    | .chars ps => by
+    | .chars ps, _ => by
         simp only [XNode.callbacks, XNode.toNodes]
         rw [flatMap_evOf_map XmlCb.characterData (fun s => Event.text s false) (fun _ => rfl),
             flattenList_leaves (fun s => Event.text s false)]
-    | .cdata ps => by
+    | .cdata ps, _ => by
         simp only [XNode.callbacks, XNode.toNodes, List.flatMap_cons, List.flatMap_append, flattenList,
           flattenList_append, Node.flatten]
         rw [flatMap_evOf_map XmlCb.characterData (fun s => Event.text s false) (fun _ => rfl),
             flattenList_leaves (fun s => Event.text s false)]
         simp [evOf, xmlStep, flattenList, Node.flatten]
-    | .comment s => by simp [XNode.callbacks, XNode.toNodes, evOf, xmlStep, flattenList, Node.flatten]
-    | .pi t d => by simp [XNode.callbacks, XNode.toNodes, evOf, xmlStep, flattenList, Node.flatten]
-    | .decl v e s => by simp [XNode.callbacks, XNode.toNodes, evOf, xmlStep, flattenList, Node.flatten]
-    | .doctype n sy pb h => by simp [XNode.callbacks, XNode.toNodes, evOf, xmlStep, flattenList, Node.flatten]
-  theorem callbacksList_events : ∀ (ts : List XNode), (callbacksList ts).flatMap evOf = flattenList (toNodesList ts)
-    | [] => rfl
-    | t :: ts => by
+    | .comment s, _ => by simp [XNode.callbacks, XNode.toNodes, evOf, xmlStep, flattenList, Node.flatten]
+    | .pi t d, _ => by simp [XNode.callbacks, XNode.toNodes, evOf, xmlStep, flattenList, Node.flatten]
+    | .decl v e s, _ => by simp [XNode.callbacks, XNode.toNodes, evOf, xmlStep, flattenList, Node.flatten]
+    | .doctype n sy pb h, _ => by simp [XNode.callbacks, XNode.toNodes, evOf, xmlStep, flattenList, Node.flatten]
+    | .ignorable s l c, h => by
+        simp only [XNode.wf] at h
+        simp [XNode.callbacks, XNode.toNodes, evOf, xmlStep, handleOther_ignorable s l c h, flattenList]
+  theorem callbacksList_events : ∀ (ts : List XNode), wfList ts = true →
+      (callbacksList ts).flatMap evOf = flattenList (toNodesList ts)
+    | [], _ => rfl
+    | t :: ts, h => by
+        simp only [wfList, Bool.and_eq_true] at h
         simp only [callbacksList, toNodesList, List.flatMap_append, flattenList_append]
-        rw [callbacks_events t, callbacksList_events ts]
+        rw [callbacks_events t h.1, callbacksList_events ts h.2]
 end
 
 mutual
@@ -127,6 +158,7 @@ mutual
     | .pi t d => rfl
     | .decl v e s => rfl
     | .doctype n sy pb h => rfl
+    | .ignorable s l c => rfl
   theorem toNodesList_ok : ∀ (ts : List XNode), okList (toNodesList ts) = true
     | [] => rfl
     | t :: ts => by
@@ -143,13 +175,13 @@ theorem xmlReads_items (reads : List (List (Item XmlCb))) :
     rw [ih]
 
 /-- the queue-free run of a whole forest traversal -/
-theorem eager_xml_forest (doc : List XNode) :
+theorem eager_xml_forest (doc : List XNode) (hwf : wfList doc = true) :
     eager xmlLayer () ((callbacksList doc).map Item.cb) = (flattenList (toNodesList doc), none) := by
-  have h := run_xml_nodefault (callbacksList doc) (callbacksList_nodefault doc)
+  have h := run_xml_ok (callbacksList doc) (callbacksList_allOk doc hwf)
   have := eager_append_ok xmlLayer ((callbacksList doc).map Item.cb) [] () () _ h
   simp only [List.append_nil, eager, xmlLayer] at this
   simp only [xmlLayer]
-  rw [this, callbacksList_events]
+  rw [this, callbacksList_events doc hwf]
 
 /-- first failure of a sequence of items, as a position -/
 def firstFailure : List (Item XmlCb) → Option PyExc
